@@ -28,7 +28,7 @@ RULE = (
     "surface forms, distinct loop variables), /*gpukern*/, /*gpufun*/ helper functions, /*gpuglmem*/ and /*restrict*/ "
     "placeholders, lines restricted with //only_for_context <subset of targets> inside and outside blocks (sometimes behind an ordinary // remark on the same line), "
     "//include_file <f> for_context <subset> with generated files (which may carry a context-restricted line of their own), "
-    "optionally annotated text handed over through extra_headers=, unique unannotated filler lines; x n in {0,1,2,3, "
+    "optionally annotated text handed over through extra_headers=, optionally one source text listed twice (position matters), unique unannotated filler lines; x n in {0,1,2,3, "
     "block-1, block, block+1, 2*block+3} x CUDA block size in {1,2,32,256}. Block bodies are index-local and "
     "instrumented: cnt[i] += 1; y[i] = 2*x[i] + K (+ terms that are active only when a context-restricted line / an "
     "included file is active for the target), on arrays with canary slots behind n. Oracle: on ContextCpu() and "
@@ -53,7 +53,7 @@ def budget(tier):
 
 
 def essential_labels(tier):
-    return ["n_0", "n_not_multiple_of_block", "two_blocks_in_kernel", "restricted_line_in_block", "include_file", "helper_function", "form:decl", "form:for", "kernels_2plus", "no_vectorised_block_in_source", "annotated_extra_header", "restricted_line_in_included_file", "blocks_with_different_bounds", "remark_before_annotation"]
+    return ["n_0", "n_not_multiple_of_block", "two_blocks_in_kernel", "restricted_line_in_block", "include_file", "helper_function", "form:decl", "form:for", "kernels_2plus", "no_vectorised_block_in_source", "annotated_extra_header", "restricted_line_in_included_file", "blocks_with_different_bounds", "remark_before_annotation", "same_source_text_listed_twice"]
 
 
 @st.composite
@@ -99,7 +99,8 @@ def cases(draw, tier):
         # annotated text handed over through the extra_headers option instead of sources
         header = {"targets": draw(st.lists(st.sampled_from(TARGETS), min_size=1, max_size=3, unique=True)), "c": draw(st.integers(1, 9)) * 100000000}
     n2 = draw(st.sampled_from([n, n, 0, 1, n + 1, n + block + 1, max(n - 1, 0)]))  # bound of the blocks vectorised over n2
-    return {"kernels": kernels, "n": n, "n2": n2, "block": block, "header": header}
+    # the same source text listed twice (its second occurrence defines something the first does not)
+    return {"kernels": kernels, "n": n, "n2": n2, "block": block, "header": header, "dup": draw(st.integers(0, 3)) == 0}
 
 
 def strategy(tier):
@@ -113,9 +114,13 @@ def strategy(tier):
 VARS = ["ii", "jj", "kk"]
 
 
+DUP_TEXT = "#ifdef VF_ONCE\n#define VF_TWICE\n#endif\n#ifndef VF_ONCE\n#define VF_ONCE\n#endif\n"
+
+
 def make_source(case):
     """-> (source text, include files {name: text}, filler lines in order, restricted lines [(text, targets)], header text)"""
-    lines = ["#ifndef XOBJ_STDINT", "#include <stdint.h>", "#endif", "#ifndef VF_HDR", "#define VF_HDR 0", "#endif"]
+    lines = ["#ifndef XOBJ_STDINT", "#include <stdint.h>", "#endif", "#ifndef VF_HDR", "#define VF_HDR 0", "#endif",
+             "#ifdef VF_TWICE", "#define VF_DUP 3000000000.0", "#else", "#define VF_DUP 0", "#endif"]
     files = {}
     fillers = []
     restricted = []
@@ -157,7 +162,7 @@ def make_source(case):
             restricted.append((t, k["outer"]["targets"]))
             lines.append(t)
         if not k["blocks"]:
-            lines.append(f"    y[0] = 2 * x[0] + ({k['scalar_k']}) + VF_BIAS_{j} + VF_INCL_{j} + VF_HDR + vf_outer;")
+            lines.append(f"    y[0] = 2 * x[0] + ({k['scalar_k']}) + VF_BIAS_{j} + VF_INCL_{j} + VF_HDR + VF_DUP + vf_outer;")
             lines.append("    cnt[0] = 7;")
         for b, blk in enumerate(k["blocks"]):
             v = VARS[b]
@@ -170,7 +175,7 @@ def make_source(case):
                 lines.append(filler("        "))
             base = f"vf_helper_{j}(x[{v}], {blk['k']})" if blk["helper"] else f"2 * x[{v}] + ({blk['k']})"
             lines.append(f"        cnt[{b} * stride + {v}] += 1;")
-            lines.append(f"        y[{b} * stride + {v}] = {base} + VF_BIAS_{j} + VF_INCL_{j} + VF_HDR + vf_outer;")
+            lines.append(f"        y[{b} * stride + {v}] = {base} + VF_BIAS_{j} + VF_INCL_{j} + VF_HDR + VF_DUP + vf_outer;")
             if blk["restricted"] is not None:
                 t = f"        /*r{len(restricted)}*/ y[{b} * stride + {v}] += {blk['restricted']['c']}; {'// a remark ' if blk['restricted'].get('remark') else ''}//only_for_context {' '.join(blk['restricted']['targets'])}"
                 restricted.append((t, blk["restricted"]["targets"]))
@@ -195,6 +200,8 @@ def reference(case, j, target, x):
         bias += k["include"]["line"]["c"]
     if case.get("header") and target in case["header"]["targets"]:
         bias += case["header"]["c"]
+    if case.get("dup"):
+        bias += 3000000000.0
     if not k["blocks"]:
         cnt[0] = 7
         y[0] = 2 * x[0] + k["scalar_k"] + bias + outer
@@ -264,6 +271,9 @@ def run_case(case):
     labels = set()
     n, block = case["n"], case["block"]
     src, files, fillers, restricted, header = make_source(case)
+    dup = [DUP_TEXT, DUP_TEXT] if case.get("dup") else []
+    if dup:
+        labels.add("same_source_text_listed_twice")
     if header:
         labels.add("annotated_extra_header")
     if any(k["include"] is not None and k["include"].get("line") for k in case["kernels"]):
@@ -298,7 +308,7 @@ def run_case(case):
     # ---- structure of every specialisation
     texts = {}
     for t in TARGETS:
-        r = sut(specialize_source, header + src, t, search_in_folders=["."])  # headers and sources are one text
+        r = sut(specialize_source, header + "".join(dup) + src, t, search_in_folders=["."])  # headers and sources are one text
         if is_raised(r):
             return fail("specialize_raised", f"{t}: {r}", f"{t}|{r.key}", labels)
         texts[t] = r
@@ -358,7 +368,7 @@ def run_case(case):
             kerns[f"vfk{j}"] = xo.Kernel(c_name=f"vfk{j}", args=[
                 xo.Arg(xo.Float64, pointer=True, const=True, name="x"), xo.Arg(xo.Float64, pointer=True, name="y"),
                 xo.Arg(xo.Int32, pointer=True, name="cnt"), xo.Arg(xo.Int64, name="n"), xo.Arg(xo.Int64, name="n2"), xo.Arg(xo.Int64, name="nt"), xo.Arg(xo.Int64, name="stride")], n_threads="nt")
-        r = sut(ctx.add_kernels, sources=[src], kernels=kerns, extra_headers=[header] if header else (), extra_compile_args=("-O1", "-Wno-unused-function"), extra_link_args=())
+        r = sut(ctx.add_kernels, sources=dup + [src], kernels=kerns, extra_headers=[header] if header else (), extra_compile_args=("-O1", "-Wno-unused-function"), extra_link_args=())
         if is_raised(r):
             return fail("cpu_build_failed", f"{t} ({nthreads} threads): {r}", f"{t}|{r.key}", labels)
         for j in range(nk):
